@@ -43,7 +43,7 @@ def run(ctx, scns, monitor):
     clang_asan, msan, plain = builds
 
     # 1. second compiler, same monitor
-    run_monitored(ctx, clang_asan, scns[:len(scns) // 2], monitor, tag="asan-clang", cpu_limit=30)
+    run_monitored(ctx, clang_asan, scns[:24000], monitor, tag="asan-clang", cpu_limit=30)
 
     # 2. MemorySanitizer: uninitialised-value use that red zones cannot see
     def msan_mon(scn, sobj, r, sf, ck):
@@ -54,7 +54,7 @@ def run(ctx, scns, monitor):
         if ck and not sf:
             r.count("msan_crash:" + ck)
     nodse = [s for s in scns if s.meta["fam"] != "dse-inflated"]
-    run_monitored(ctx, msan, scns[:20000], msan_mon, tag="msan", cpu_limit=60)
+    run_monitored(ctx, msan, scns[:12000], msan_mon, tag="msan", cpu_limit=60)
 
     # 3. valgrind memcheck on the plain build
     def vg_mon(scn, sobj, r, sf, ck):
